@@ -1416,8 +1416,8 @@ Qed.
    and on integers so must SpecFloat.binary_normalize: checked on a small grid that contains ties,
    mantissa carries, subnormal and overflowing quotients (kept small: coqchk re-evaluates it with
    the kernel's lazy machine in the thorough tier). *)
-Definition xs_small : list Z := [1; 3; 10; 4503599627370497; 6004799503160661; 9007199254740991].
-Definition pow_shifts : list Z := [0; 1; 54; 970; 1000].
+Definition xs_small : list Z := [3; 10; 4503599627370497; 9007199254740991].
+Definition pow_shifts : list Z := [0; 54; 970; 1000].
 
 (* operands must themselves be finite doubles for the comparison to make sense *)
 Definition fits (n : Z) : bool := n <? 2 ^ 1024.
